@@ -10,7 +10,8 @@ the arity of its operator; `Term.wf` adds exactly this to `wt`:
 
 * `Op.shapeOK op p n` : a node `op` with payload `p` may have `n` arguments
   (binary operators 2, `plus`/`times` ≥ 2 as `Plus`/`Times` build them, quantifiers carry a
-  `.qvars` payload, a bit-vector constant is `< 2^width`, …); `pow` and algebraic constants
+  `.qvars` payload, constants carry the payload of their sort, a bit-vector constant is
+  `< 2^width`, extract/extend/rotate carry their index payload with `lo ≤ hi`, …); `pow` and algebraic constants
   are outside the semantics (`Core/Eval.lean`) and never well-formed;
 * `Term.wf t` : every node of `t` has an admissible shape and is accepted by the checker.
 
@@ -27,12 +28,16 @@ def Op.shapeOK (op : Op) (p : Payload) (n : Nat) : Bool :=
   | .forall_, .qvars _ | .exists_, .qvars _ => n == 1
   | .forall_, _ | .exists_, _ => false
   | .and, _ | .or, _ | .strConcat, _ | .function, _ | .arrayValue, _ => true
-  | .symbol, _ | .realConst, _ | .boolConst, _ | .intConst, _ | .strConst, _ => n == 0
+  | .symbol, _ | .realConst, .q _ | .boolConst, .b _ | .intConst, .i _ | .strConst, .s _ => n == 0
+  | .realConst, _ | .boolConst, _ | .intConst, _ | .strConst, _ => false
   | .bvConst, .bv v w => n == 0 && decide (v < 2 ^ w)
   | .bvConst, _ => false
   | .plus, _ | .times, _ => decide (2 ≤ n)
-  | .not, _ | .toReal, _ | .bvNot, _ | .bvNeg, _ | .bvExtract, _ | .bvRol, _ | .bvRor, _ | .bvZext, _
-  | .bvSext, _ | .strLength, _ | .strToInt, _ | .intToStr, _ | .bvToNatural, _ => n == 1
+  | .bvExtract, .ints [_, lo, hi] => n == 1 && decide (lo ≤ hi)
+  | .bvZext, .ints [_, _] | .bvSext, .ints [_, _] | .bvRol, .ints [_, _] | .bvRor, .ints [_, _] => n == 1
+  | .bvExtract, _ | .bvZext, _ | .bvSext, _ | .bvRol, _ | .bvRor, _ => false
+  | .not, _ | .toReal, _ | .bvNot, _ | .bvNeg, _
+  | .strLength, _ | .strToInt, _ | .intToStr, _ | .bvToNatural, _ => n == 1
   | .ite, _ | .strIndexOf, _ | .strReplace, _ | .strSubstr, _ | .arrayStore, _ => n == 3
   | _, _ => n == 2
 
